@@ -247,3 +247,6 @@ Proof.
   intro s. rewrite number_exact. unfold is_c_number. rewrite <- re_match_spec.
   split; [intro H; injection H; auto|intros ->; reflexivity].
 Qed.
+
+Lemma c_number_is_grammar : forall s : str, is_c_number s = true <-> lang c_number s.
+Proof. intro s. apply re_match_spec. Qed.
